@@ -55,6 +55,7 @@ type tcpConnectionActor struct {
 	writeCloseLock sync.RWMutex
 	client         bool
 	closed         bool
+	reader         *bufio.Reader // 连接的读取缓冲，仅由该 Actor 自身的消息处理协程使用
 }
 
 func (c *tcpConnectionActor) OnReceive(ctx vivid.ActorContext) {
@@ -88,7 +89,12 @@ func (c *tcpConnectionActor) onLaunch(ctx vivid.ActorContext) {
 
 func (c *tcpConnectionActor) onReadConn(ctx vivid.ActorContext) (fatal bool, err error) {
 	// 消息读取
-	reader := bufio.NewReader(c.conn)
+	// 整个连接的生命周期内只使用同一个带缓冲的读取器：bufio.Reader 会一次性从连接中读出多于当前帧的数据，
+	// 若每帧都新建读取器，已被缓冲但尚未解析的后续帧会随旧读取器一同丢弃（TCP 将多帧合并到一次读取时必然发生）
+	if c.reader == nil {
+		c.reader = bufio.NewReader(c.conn)
+	}
+	reader := c.reader
 	lengthBuf := make([]byte, 4)
 	if _, err = io.ReadFull(reader, lengthBuf); err != nil {
 		// 对等连接已关闭
